@@ -564,7 +564,7 @@ def leaves():
     con = st.sampled_from(["pi", "E", "pi", "E", "pi", "E", "EulerGamma", "Catalan", "GoldenRatio"]).map(
         lambda n: ["constant", n])
     inf = st.sampled_from([["oo"], ["noo"]])
-    return en.weighted([(12, sym), (5, small), (1, mid), (2, big), (4, rat), (1, brat), (3, dbl), (3, con), (1, inf)])
+    return en.weighted([(20, sym), (5, small), (1, mid), (2, big), (4, rat), (1, brat), (3, dbl), (3, con), (1, inf)])
 
 
 def tree(max_leaves):
